@@ -108,6 +108,10 @@ class Module:
                 if loops_to_comprehensions(self.tree):
                     for q_, d_ in propagate.apply(self.tree, relpath).items():
                         self.propagated.setdefault(q_, []).extend(d_)
+            if self.propagated:
+                # a retry loop whose body only bound forwarded temporaries is a tail call once they are substituted (N36 after N7)
+                from .normalize import tail_iteration_to_recursion
+                self.norm_counts['tail_iteration'] = self.norm_counts.get('tail_iteration', 0) + tail_iteration_to_recursion(self.tree)
             from .normalize import unroll_literal_loops, fuse_nested_comprehensions, immediate_partials_to_calls
             self.norm_counts['immediate_partials'] = immediate_partials_to_calls(self.tree)
             self.norm_counts['unrolled'] = unroll_literal_loops(self.tree)
